@@ -2,8 +2,10 @@
     interleaving produces a data race, a deadlock or a crash.
 
     Property theorems only; the semantics is in Base/Locks.v, the copy-on-write
-    discipline and the sequential specification in C07/Model.v, the proofs in
-    Base/Locks.v and C07/Proofs.v.
+    discipline and the sequential specification in C07/Model.v; the proofs of the
+    lock discipline are in Base/Locks.v, of linearizability in C07/Lin.v, of the
+    run-time tie in C07/Sched.v; C07/Proofs.v and C07/Repo.v restate them in the
+    form used here.
 
     Every theorem is stated for EVERY skeleton [sk] that passes the boolean
     check [wf_skel K sk]; [Gen/RepoSkel.v] (regenerated from
@@ -21,9 +23,12 @@
     functions computing written values from the values read. *)
 From HV Require Import Base.Prelude Base.Locks C07.Model C07.Lin C07.Proofs C07.Examples Gen.RepoSkel C07.Repo C07.Sched.
 
-(** no interleaving reaches a crash: unlock of an unlocked mutex, nil
-    dereference (use of an object pointer that was never loaded), or code the
-    extractor could not translate *)
+(** no interleaving reaches a crash in the sense of [bad]: unlock of a mutex the
+    thread does not hold, use of a tree VARIABLE that was never loaded or cloned
+    (a method-local name), or code the extractor could not translate.  That the
+    pointer field itself is non-nil is the hypothesis [initial] of [reach]
+    (every pointer field points to an allocated object): the body of
+    newRepository is not extracted; a store of nil is untranslatable code. *)
 Theorem C07_no_crash :
   forall (val arg : Type) (wfun : op arg -> nat -> list val -> val) (sk : skel) (wp : bool) (K : lock),
     wf_skel K sk = true ->
@@ -213,8 +218,11 @@ Print Assumptions C07_repo_linearizable.
     responses, lock operations as granted, accesses to the guarded fields, method calls on the tree objects).
     [replay] (C07/Sched.v) follows such a log through the interleaving semantics of the skeleton [sk]: every
     logged event must be the next event of a path of its method and be enabled in the model, on the objects
-    the model computes.  Whatever [replay] went through — all of the log when it reports no error — IS an
-    execution of the skeleton semantics (no writer preference) from [c0] ... *)
+    the model computes.  Whatever [replay] went through IS an execution of the skeleton semantics (no writer
+    preference) from [c0].  On its own this is satisfied trivially by a log that is rejected at its first event
+    (then nothing was gone through: [exec c0 [] c0]); the content is in the combination with the next theorem:
+    when [replay] reports no error it went through ALL of the log.  ([ex_log_replays] in C07/Sched.v: a hand-written
+    log of the example skeleton is replayed without error; the check's cases are the run-time witnesses.) ... *)
 Theorem C07_explored_schedule_is_model_execution :
   forall (val arg : Type) (wfun : op arg -> nat -> list val -> val) (sk : skel) (a0 : arg)
          (c0 : cfg val arg) (items : list item) (s' : rpst val arg) (err : option rerr),
@@ -233,8 +241,12 @@ Theorem C07_explored_schedule_same_history :
 Proof. exact replay_history. Qed.
 Print Assumptions C07_explored_schedule_same_history.
 
-(** ... so for a skeleton that passes the check the theorems above hold OF THAT RUN of the real code: the
-    configuration it reaches is no crash and no data race, and the run has a linearization *)
+(** ... so for a skeleton that passes the check the theorems above apply to the MODEL EXECUTION that the run of the
+    real code was replayed as: the configuration it reaches is no crash and no data race, and that execution has a
+    linearization.  Values are abstract in the model (the check evaluates the instance with [unit] values, see
+    [C07_repo_explored_schedule_safe]): the logs of [lin] say which events an operation went through, not what the
+    real operation returned.  That the RESULTS of the real operations are linearizable is checked per schedule
+    (evaluator, against the real code run sequentially), not proved. *)
 Theorem C07_explored_schedule_safe :
   forall (val arg : Type) (wfun : op arg -> nat -> list val -> val) (sk : skel) (a0 : arg) (K : lock)
          (c0 : cfg val arg) (items : list item) (s' : rpst val arg) (err : option rerr),
